@@ -161,6 +161,10 @@ def _limit_memory():
 def _run_one(u):
     out = unit_path(u)
     if os.path.exists(out):
+        try:
+            os.utime(os.path.dirname(out))       # in use: keeps the directory inside prune_cache's grace period while other trees come and go
+        except OSError:
+            pass
         return out, 0.0, True
     os.makedirs(os.path.dirname(out), exist_ok=True)
     tmp = out + ".tmp.%d" % os.getpid()
